@@ -24,6 +24,7 @@ RULE = ('Hypothesis generates fit output files: 1..4 records with 0..8 fits each
         'record prefixes separately. One evaluation = one file with ALL its truncation offsets (offsets_evaluated counts '
         'them). Non-trivial = file with >= 2 records (so that a cut can fall between and inside records); distinct = '
         'distinct canonical JSON of the file description.')
+RULE += (' ' + 'Also varied: one Source object re-used for all records (given new photometry before each write), records of 4500 / 9000 fits.')
 ASSUMPTIONS = [
     'a reader that raises any exception on a truncated file satisfies the property; returning fewer records is allowed',
     'truncation is the only fault (bytes before the cut are intact), as after a crash or a full disk',
